@@ -93,7 +93,8 @@ def finder(ctx, n):
             B = latlive.rand_base(rng)
             L = Lattice(base=B)
             cell = L.abcABG()
-            case = {"base": B.tolist()}
+            case = {"base": B.tolist(), "then": "the caller scales its own array in place"}
+            B *= 1.7          # the caller re-uses its buffer: the lattice must keep its own copy
         ctx.count(("finder", kind, i))
         probs = []
         B = numpy.array(L.base)
